@@ -42,11 +42,11 @@ class ConnectRules(Rule):
             if rq.valid and rq.allowed and rq.judged:
                 n = sum(1 for op in d.writes if op.type == "CONNECT" and op.ci == rq.ci)
                 if not rq.accepted:
-                    why = rq.exc or (rq.fires[0][2][0] if rq.fires and not rq.fires[0][1] else rq.how)
+                    why = rq.exc or (rq.refusal[0] if rq.refusal else rq.how)
                     L.violate("C04", "H1", "valid-connect-rejected:%s" % why, "valid connect() on an idle protocol rejected: %s" % why)
                 elif n != 1:
                     L.violate("C04", "H1", "CONNECT-count:%d" % n, "connect() wrote %d CONNECT packets" % n)
-                elif any(f[0] == d.seq for f in rq.fires):
+                elif getattr(rq, "ret_state", "pending") != "pending":
                     L.violate("C04", "H2", "fired-in-connect()", "connect() Deferred fired before any CONNACK")
             if rq.accepted:
                 tm = [L.timers[t] for t in d.plain if L.timers[t]["kind"] == "connect"]
@@ -55,8 +55,7 @@ class ConnectRules(Rule):
                     L.violate("C04", "H2", "timeout-value", "CONNACK timeout scheduled after %s s, expected %s"
                               % (tm[0]["due"] - tm[0]["t0"], want))
         # H2 at CONNACK
-        if d.connack is not None and not d.desync:
-            fx = d.connack
+        for fx in (d.connacks if (not d.desync and not (d.coarse and len(d.frame_fx) > 1)) else ()):
             rq = fx["req"]
             p = fx["fr"].pkt
             rcv = p["rc"]
@@ -71,7 +70,7 @@ class ConnectRules(Rule):
                 elif rcv != 0 and (f[0][1] or f[0][2][0] != "MQTTStateError"):
                     L.violate("C04", "H2", "CONNACK-refused-outcome:%s" % cls,
                               "CONNACK rc=%d but connect() outcome was %r" % (rcv, f[0],))
-            if rcv != 0 and not any(a.kind == "connect" and a.accepted and a.nested for a in d.apis):
+            if rcv != 0 and fx is d.connacks[-1] and not any(a.kind == "connect" and a.accepted and a.nested for a in d.apis):
                 # (an errback may legitimately have called connect() again already)
                 self._idle_check(d, d.conn, "refused")
         # connect Deferreds firing outside a CONNACK dispatch
@@ -79,7 +78,7 @@ class ConnectRules(Rule):
             rq = L.reqs.get(rid)
             if rq is None or rq.kind != "connect" or not rq.accepted:
                 continue
-            if d.connack is not None and d.connack["req"] is rq:
+            if any(fx["req"] is rq for fx in d.connacks):
                 continue
             c = L.conns[rq.ci]
             if ok:
@@ -156,7 +155,7 @@ class GateRules(Rule):
                 continue
             if not rq.valid:
                 continue
-            failed = rq.fires[0][2][0] if (rq.fires and not rq.fires[0][1] and rq.fires[0][0] == d.seq) else None
+            failed = rq.refusal[0] if rq.refusal else None
             refused_state = (rq.how == "raised" and rq.exc == "MQTTStateError") or failed == "MQTTStateError"
             c = L.conns[rq.ci]
             ctx = "%s:%s:p%d" % (rq.m, rq.state_at_call, c.profile)
@@ -217,6 +216,10 @@ class KeepaliveRules(Rule):
             for pg in (c.pings if c else []):
                 if pg["tid"] == d.fired["tid"]:
                     k = c.keepalive
+                    if d.t < pg["t"] + k - EPS and not L.stalled:
+                        L.violate("C15", "K3", "abort-before-deadline",
+                                  "PINGREQ at %.3f: the connection was aborted at %.3f, before its %d s were over"
+                                  % (pg["t"], d.t, k))
                     if pg["ans"] is not None and pg["ans"] < pg["t"] + k - EPS:
                         L.violate("C15", "K3", "abort-though-answered",
                                   "PINGREQ at %.3f answered at %.3f (k=%d) but the keepalive timer aborted the connection"
@@ -324,7 +327,7 @@ class ArgRules(Rule):
                 continue
             if rq.kind in ("subscribe", "unsubscribe") and getattr(rq, "n_pending_same", 0) >= rq.window_at_call:
                 continue
-            failed = rq.fires[0][2] if (rq.fires and not rq.fires[0][1] and rq.fires[0][0] == d.seq) else None
+            failed = rq.refusal
             if rq.invalid:
                 L.probe("invalid_call")
                 why = rq.invalid[0]
